@@ -44,6 +44,14 @@ func genDepth(r *rand.Rand) []int64 {
 func runExtNesting(in []int64) []int64 {
 	n, term := int(in[0]), in[1] != 0
 	payload := append([]byte{0}, []byte("d1:md11:ut_metadatai3ee1:z")...)
+	if len(in) > 2 {
+		switch in[2] {
+		case 1: // a ut_metadata request with an unknown key
+			payload = append([]byte{1}, []byte("d8:msg_typei0e5:piecei0e1:z")...)
+		case 2: // a ut_pex message with an unknown key
+			payload = append([]byte{2}, []byte("d5:added0:1:z")...)
+		}
+	}
 	payload = append(payload, nestedTail(n, term)...)
 	if term {
 		payload = append(payload, 'e')
@@ -68,7 +76,8 @@ loop:
 			if !ok {
 				break loop
 			}
-			if _, ok := m.(peerprotocol.ExtensionHandshakeMessage); ok {
+			switch m.(type) {
+			case peerprotocol.ExtensionHandshakeMessage, peerprotocol.ExtensionMetadataMessage, peerprotocol.ExtensionPEXMessage:
 				delivered = 1
 				break loop
 			}
@@ -83,7 +92,7 @@ loop:
 }
 
 func genExtNesting(r *rand.Rand, tier string) Case {
-	in := genDepth(r)
+	in := append(genDepth(r), int64(r.Intn(3))) // which extension message carries the nested value
 	return Case{In: in, Obs: Guard(func() []int64 { return runExtNesting(in) })}
 }
 
